@@ -135,7 +135,7 @@ func loadEngine(repoDir, harnessDir string, overlay map[string][]byte, extraPatt
 		e.initAllow[p] = true
 	}
 	// packages whose package-level variables are only lookup tables we never read through real code
-	for _, p := range []string{"errors", "strconv", "unicode", "internal/cpu", "runtime", "internal/bytealg", "internal/godebug", "unsafe", "sync", "sync/atomic", "internal/race", "fmt", "reflect", "os", "syscall", "time"} {
+	for _, p := range []string{"errors", "strconv", "internal/cpu", "runtime", "internal/bytealg", "internal/godebug", "unsafe", "sync", "sync/atomic", "internal/race", "fmt", "reflect", "os", "syscall", "time"} {
 		e.harmlessGlobals[p] = true
 	}
 	registerIntrinsics(e)
